@@ -89,7 +89,7 @@ fn main() {
                 .ok()
                 .and_then(|s| s.parse().ok())
                 .unwrap_or_else(|| framework::case_seed(framework::base_seed(), &id, idx));
-            let r = sim::on_big_stack(move || c.run_case(idx, seed, tier));
+            let r = sim::on_stack(c.stack_bytes(idx), move || c.run_case(idx, seed, tier));
             println!("{}", serde_json::to_string_pretty(&r).unwrap());
         }
         Some("gen") => {
